@@ -98,14 +98,17 @@ KERNELS = [
         _RD, "Bw64Reader.seek", "seek", "(k : Cfg) (pos offset whence : Int)", "Option Int",
         names={"offset": ("offset", "int"), "whence": ("whence", "int")}, exprs=_CURSOR_EXPRS,
         effects={"self._buffer.seek": "result"}, ret_mode="option",
+        raises=[("ValueError", "whence value", None)],
         notes="result = the argument of self._buffer.seek (new buffer position); raise ValueError = none; "
               "the default whence=0 is the caller's business"), ["seek_eq_model"]),
     Kernel("C18", KernelSpec(
         _RD, "Bw64Reader.tell", "tell", "(k : Cfg) (pos : Int)", "Int", exprs=_CURSOR_EXPRS), ["tell_eq_model"]),
     Kernel("C18", KernelSpec(
-        _RD, "Bw64Reader.__len__", "len", "(k : Cfg) (ds64 : Bool)", "Int",
-        exprs=dict(_CURSOR_EXPRS, **{"self._ds64": ("ds64", "bool"), "self._ds64.dataSize": ("k.size", "int")}),
-        notes="the model's Cfg.size is the ds64 dataSize for BW64 files, the data chunk size otherwise: both map to k.size"),
+        _RD, "Bw64Reader.__len__", "len", "(k : Cfg) (ds64 : Bool) (dsSize chunkSize : Int)", "Int",
+        exprs=dict(_CURSOR_EXPRS, **{"self._ds64": ("ds64", "bool"), "self._ds64.dataSize": ("dsSize", "int"),
+                                     "self._chunks[b'data'].size": ("chunkSize", "int")}),
+        notes="the model's Cfg.size is the ds64 dataSize for BW64 files, the data chunk size otherwise: the two sizes are "
+              "separate parameters here, so that which branch reads which is part of the equality"),
         ["len_eq_model"]),
     # 6 — C20
     Kernel("C20", KernelSpec(
@@ -169,6 +172,7 @@ KERNELS += [
         exprs={"self._buffer.tell()": ("pos", "nat"), "self._file_len": ("fileLen", "nat"),
                "chunkId == b'data'": ("isData", "bool")},
         effects=_BUF_SEEK, ret_mode="option", select=dict(range=("self._buffer.seek(", None)), outputs=["chunk_end"],
+        raises=[("ValueError", "chunk ends after the end of the file", None)], bound=("chunkId",),
         notes="range: from the skip `self._buffer.seek(chunkSize + (chunkSize & 1), 1)` to the end of the loop body; "
               "pos = buffer position after the 8-byte header; result = chunk_end (the next header position), "
               "none = the ValueError"), ["read_chunks_step_eq_model"]),
@@ -296,6 +300,7 @@ KERNELS += [
         exprs=dict(_tf_exprs("blockFormat"), **{"blockFormat.rtime": ("r", "rat"), "blockFormat.duration": ("d", "rat"),
                                                 "audioObject.duration": ("D", "rat")}),
         optionals=_tf_il("blockFormat"), inline={"_has_interpolationLength": "_has_interpolationLength"}, ret_mode="option",
+        raises=[("ValueError", "but this would be before the block start", None)],
         outputs=["blockFormat.duration", "blockFormat.jumpPosition.interpolationLength"],
         notes="fix=True; none = the ValueError; outputs: duration and interpolationLength after the call"),
         ["clamp_end_eq_model"]),
@@ -396,6 +401,7 @@ KERNELS += [
                "self._ds64.dataSize": ("d.dataSize", "nat"), "chunkId in self._ds64.table": ("(d.lookup id).isSome", "bool"),
                "self._ds64.table[chunkId]": ("((d.lookup id).getD 0)", "nat")},
         ret_mode="option", select=dict(range=("if self.fileFormat in [b'RF64', b'BW64']", "return (chunkId, chunkSize)")),
+        raises=[("ValueError", "data chunk size has not been set", None)],
         outputs=["chunkSize"],
         notes="range: the size correction for RF64/BW64 and, in its else, the rejection of the 0xFFFFFFFF data placeholder "
               "(fix 61d37f4); none = that ValueError; output chunkSize; isBw64 = `self.fileFormat in [b'RF64', b'BW64']` "
@@ -505,6 +511,7 @@ KERNELS += [
         exprs={"int(match.group('num'))": ("num", "nat"), "int(match.group('den'))": ("den", "nat"),
                "int(match.group('whole_s'))": ("whole_s", "nat")},
         ctors={("FractionalTime.from_fraction", 2): "({0}, {1})"}, ret_mode="option",
+        raises=[("ValueError", "numerator must be less than denominator", None)],
         select=dict(range=("numerator = int(", None)),  outputs=[],
         notes="range: the fractional branch after the regular expression (int(match.group(..)) are the parameters); "
               "result = the arguments of FractionalTime.from_fraction; none = the ValueError"),
@@ -618,22 +625,22 @@ KERNELS += [
         exprs={"apf.inputPackFormat": ("input", "option:id"), "apf.outputPackFormat": ("output", "option:id"),
                "Type.DIRECT": (_V + "MType.direct", "mtype"), "Type.ENCODE": (_V + "MType.encode", "mtype"),
                "Type.DECODE": (_V + "MType.decode", "mtype")},
-        raises=[("assert False", "(%sErr.internal %sIntKind.assert)" % (_V, _V))],
+        raises=[("assert", "assert False", "(%sErr.internal %sIntKind.assert)" % (_V, _V))],
         notes="ret_mode except: `assert False` is the model's internal assert error; tied to Validate.typeOf (C14) and to the "
               "branch structure of SelectItems.wrapMatrix (C06)"), ["matrix_type_of_eq_model", "matrix_type_of_wrap_eq_model"]),
     Kernel("C14", KernelSpec(
         _VA, "_validate_non_matrix_pack", "validate_non_matrix_pack", "(p : %sPack)" % _AV, _RU, ret_mode="except", outputs=[],
         exprs={"apf.inputPackFormat": ("p.input", "option:id"), "apf.outputPackFormat": ("p.output", "option:id"),
                "apf.encodePackFormats": ("p.encodePacks", "list:id")},
-        raises=[("has inputPackFormat reference", _adm("nmxinput")), ("has outputPackFormat reference", _adm("nmxoutput")),
-                ("has encodePackFormat references", _adm("nmxencode"))]), ["validate_non_matrix_pack_eq_model"]),
+        raises=[("AdmError", "has inputPackFormat reference", _adm("nmxinput")), ("AdmError", "has outputPackFormat reference", _adm("nmxoutput")),
+                ("AdmError", "has encodePackFormat references", _adm("nmxencode"))]), ["validate_non_matrix_pack_eq_model"]),
     Kernel("C14", KernelSpec(
         _VA, "_validate_track_uid_track_or_channel_ref", "validate_track_or_channel", "(d : %sDoc)" % _AV, _RU,
         ret_mode="except", outputs=[], for_each=_V + "forE",
         exprs={"adm.audioTrackUIDs": ("d.trackUIDs", "list:obj:TrackUID"), "atu.audioTrackFormat": ("atu.trackFormat", "option:id"),
                "atu.audioChannelFormat": ("atu.channel", "option:id")},
-        raises=[("is not linked to an audioTrackFormat or audioChannelFormat", _adm("tracknone")),
-                ("is linked to both", _adm("trackboth"))]), ["forEI_strip", "validate_track_or_channel_eq_model"]),
+        raises=[("AdmError", "is not linked to an audioTrackFormat or audioChannelFormat", _adm("tracknone")),
+                ("AdmError", "is linked to both", _adm("trackboth"))]), ["forEI_strip", "validate_track_or_channel_eq_model"]),
     Kernel("C14", KernelSpec(
         _VA, "_validate_hoa_channels", "validate_hoa_channels", "(d : %sDoc)" % _AV, _RU,
         ret_mode="except", outputs=[], for_each=_V + "forE", eq_kinds=("tdef",),
@@ -641,7 +648,7 @@ KERNELS += [
                              "audioChannelFormat.type": ("audioChannelFormat.type", "tdef"),
                              "audioChannelFormat.audioBlockFormats": ("audioChannelFormat.blocks", "list:obj:Block"),
                              _FREQ.format("audioChannelFormat"): ("audioChannelFormat.freq", "bool")}),
-        raises=[("must have exactly one block format", _adm("hoablocks")), ("must not have frequency information", _adm("hoafreq"))],
+        raises=[("AdmError", "must have exactly one block format", _adm("hoablocks")), ("AdmError", "must not have frequency information", _adm("hoafreq"))],
         notes="the model's Channel.freq is the whole test `frequency.lowPass is not None or frequency.highPass is not None`"),
         ["forEI_strip", "validate_hoa_channels_eq_model"]),
     Kernel("C14", KernelSpec(
@@ -653,27 +660,27 @@ KERNELS += [
                              _FREQ.format("audioChannelFormat"): ("audioChannelFormat.freq", "bool"),
                              "audioBlockFormat.cartesian != isinstance(audioBlockFormat.position, ObjectCartesianPosition)":
                                  ("audioBlockFormat.cartMismatch", "bool")}),
-        raises=[("must not have frequency information", _adm("objfreq")), ("mismatch between cartesian element", _adm("cartesian"))],
+        raises=[("AdmError", "must not have frequency information", _adm("objfreq")), ("AdmError", "mismatch between cartesian element", _adm("cartesian"))],
         notes="Channel.freq / Block.cartMismatch are the whole tests (see Model/AdmV.lean)"), ["forEI_strip", "validate_objects_channels_eq_model"]),
     Kernel("C14", KernelSpec(
         _VA, "_validate_pack_channel_types", "validate_pack_channel_types", "(d : %sDoc)" % _AV, _RU,
         ret_mode="except", outputs=[], for_each=_V + "forE", eq_kinds=("tdef",),
         exprs={"adm.audioPackFormats": ("d.packs", "list:obj:Pack"), "audioPackFormat.audioChannelFormats": ("audioPackFormat.channels", "list:id"),
                "audioChannelFormat.type": ("(d.chan audioChannelFormat).type", "tdef"), "audioPackFormat.type": ("audioPackFormat.type", "tdef")},
-        raises=[("but contains", _adm("packchtype"))],
+        raises=[("AdmError", "but contains", _adm("packchtype"))],
         notes="references are indices in the model: audioChannelFormat.type is (d.chan i).type"), ["forE_strip", "forEI_strip", "validate_pack_channel_types_eq_model"]),
     Kernel("C14", KernelSpec(
         _VA, "_validate_pack_subpack_types", "validate_pack_subpack_types", "(d : %sDoc)" % _AV, _RU,
         ret_mode="except", outputs=[], for_each=_V + "forE", eq_kinds=("tdef",),
         exprs={"adm.audioPackFormats": ("d.packs", "list:obj:Pack"), "audioPackFormat.audioPackFormats": ("audioPackFormat.packs", "list:id"),
                "sub_audioPackFormat.type": ("(d.pack sub_audioPackFormat).type", "tdef"), "audioPackFormat.type": ("audioPackFormat.type", "tdef")},
-        raises=[("but contains", _adm("subpacktype"))]), ["forE_strip", "forEI_strip", "validate_pack_subpack_types_eq_model"]),
+        raises=[("AdmError", "but contains", _adm("subpacktype"))]), ["forE_strip", "forEI_strip", "validate_pack_subpack_types_eq_model"]),
     Kernel("C14", KernelSpec(
         _VA, "_validate_track_channel_ref_only_in_v2", "validate_v2_refs", "(d : %sDoc)" % _AV, _RU,
         ret_mode="except", outputs=[],
         exprs={"adm.version is None or version_at_least(adm.version, 2)": ("d.v2Allowed", "bool"),
                "adm.audioTrackUIDs": ("d.trackUIDs", "list:obj:TrackUID"), "atu.audioChannelFormat": ("atu.channel", "option:id")},
-        raises=[("are not valid before BS.2076-2", _adm("v2ref"))],
+        raises=[("AdmError", "are not valid before BS.2076-2", _adm("v2ref"))],
         notes="Doc.v2Allowed is the whole right-hand side of `v2_allowed = ...`"), ["validate_v2_refs_eq_model"]),
     Kernel("C14", KernelSpec(
         _VA, "_validate_matrix_channel", "matrix_channel_blocks_test", "(c : %sChannel)" % _AV, "Bool",
@@ -683,7 +690,7 @@ KERNELS += [
         _VA, "validate_selected_audioTrackUID", "selected_track_checks", "(u : %sTrackUID)" % _AV, _RU, ret_mode="except", outputs=[],
         exprs={"audioTrackUID.trackIndex": ("u.trackIndex", "option:nat"), "audioTrackUID.audioPackFormat": ("u.pack", "option:id")},
         select=dict(range=("re:if .*audioTrackUID\\.trackIndex", "re:if .*audioTrackUID\\.audioTrackFormat is")),
-        raises=[("does not have a track index", _adm("noindex")), ("does not have an audioPackFormat", _adm("nopack"))],
+        raises=[("AdmError", "does not have a track index", _adm("noindex")), ("AdmError", "does not have an audioPackFormat", _adm("nopack"))],
         notes="range: the first two checks (track index, pack reference)"), ["selected_track_checks_eq_model"]),
 ]
 
@@ -726,11 +733,40 @@ KERNELS += [
 for _k in KERNELS[_N0:]:
     _k.group = "KernelsSel"
 
+# What the body of a function does not show, pinned per kernel (translate.py refuses a function whose decorator list or
+# parameter defaults differ from its spec: a decorator can replace the function, a default is what a caller that omits
+# the argument computes).  Kernels not listed here have neither decorators nor defaults.
+_CM, _WD, _CB = ["classmethod"], ["options.with_defaults"], ["callback=_print_warning"]
+_PINS = {
+    "seek": dict(defaults=["whence=0"]),
+    "interp_p": dict(decorators=["_interp_p.default"]),  # attrs default method
+    "interp_length": dict(decorators=_CM), "single_balance_pan": dict(decorators=["staticmethod"]),
+    "decorrelator_delay": dict(decorators=_WD), "hoa_output_channels": dict(decorators=_WD),
+    "map_az_to_linear": dict(decorators=_CM), "map_linear_to_az": dict(decorators=_CM), "extent_mod": dict(decorators=_CM),
+    "from_fraction": dict(decorators=_CM), "get_track_spec": dict(decorators=_CM),
+    "inside_angle_range": dict(defaults=["tol=0.0"]), "inside_angle_range_rat": dict(defaults=["tol=0.0"]),
+    "inside_angle_range_ds": dict(defaults=["tol=0.0"]),
+    # the timing-fix kernels are the fix=True paths (`fix` is mapped to the constant true); the default is the caller's
+    "check_duration": dict(defaults=["fix=False"]), "clamp_end": dict(defaults=["fix=False"]),
+    "clamp_il": dict(defaults=["fix=False"]), "il_gt_duration_test": dict(defaults=["fix=False"]),
+    "lock_tol": dict(defaults=["excluded=None"]), "lock_possible_test": dict(defaults=["excluded=None"]),
+    "lock_closest_test": dict(defaults=["excluded=None"]),
+    "block_alignment": dict(decorators=["property"]), "bytes_per_second": dict(decorators=["property"]),
+    "el_range_test": dict(defaults=_CB), "upmix_unmapped_test": dict(defaults=_CB), "upmix_multi_out_test": dict(defaults=_CB),
+    "upmix_row_multi_test": dict(defaults=_CB),
+    "select_programme": dict(defaults=["audio_programme=None"]),
+}
+for _k in KERNELS:
+    _pin = _PINS.get(_k.lean_name, {})
+    _k.spec.decorators = list(_pin.get("decorators", _k.spec.decorators))
+    _k.spec.defaults = list(_pin.get("defaults", _k.spec.defaults))
+assert set(_PINS) <= {k.lean_name for k in KERNELS}
+
 # Looked at and not registered: the translator refuses them on the unchanged tree (kept here so that the
 # self-test shows the refusal message).
 NOT_REGISTERED = [
     ("C04", KernelSpec("ear/cmdline/render_file.py", "OfflineRenderDriver.output_gain_linear", "output_gain_linear",
-                       "(db : Rat)", "Rat", exprs={"self.output_gain_db": ("db", "rat")}),
+                       "(db : Rat)", "Rat", exprs={"self.output_gain_db": ("db", "rat")}, decorators=["property"]),
      "10.0 ** (db / 20.0): exponentiation with a non-literal exponent is not rational arithmetic"),
     ("C13", KernelSpec("ear/core/objectbased/gain_calc.py", "AlloChannelLockHandler.get_weighted_distances", "weighted_distances",
                        "(p c : List Rat)", "Rat", names={"position": ("p", "vec:rat"), "channel_positions": ("c", "vec:rat")}),
@@ -759,7 +795,7 @@ NOT_REGISTERED = [
                        "(p : Earverif.AdmV.Pack)", "Earverif.Validate.R Unit", ret_mode="except", outputs=[],
                        exprs={"apf.inputPackFormat": ("p.input", "option:id"), "apf.outputPackFormat": ("p.output", "option:id"),
                               "apf.encodePackFormats": ("p.encodePacks", "list:id")},
-                       raises=[("has inputPackFormat reference", "e1"), ("reference", "e2")]),
+                       raises=[("AdmError", "has inputPackFormat reference", "e1"), ("AdmError", "reference", "e2")]),
      "a `raise` that two (or no) entries of the kernel's `raises` match is refused (the error kind must be unambiguous)"),
     ("C06", KernelSpec("ear/core/select_items/select_items.py", "_get_alternativeValueSet", "get_avs", "", "Option Nat"),
      "bare `return`, `continue`, a loop over a tuple display: outside the whitelist"),
